@@ -274,4 +274,43 @@ example : ((Char.ofNat 0).toNat ≤ (Char.ofNat 0x20000).toNat && (Char.ofNat 0x
   decide
 
 #print axioms conv_preserves
+/-! line protocol: `rematch <expression in prefix tokens> | <subject code points, hex, comma separated or ->`
+    tokens: l<hex> literal, `.`, s S d D w W, a = `[^]`, n = `[]`, c<hex letter> = `\cX`, ^ $ b B, C A (two arguments),
+    * + ? (one argument) -/
+def hexNat (s : String) : Nat :=
+  s.foldl (fun v d => v * 16 + (if d.isDigit then d.toNat - 48 else if 'a' ≤ d ∧ d ≤ 'f' then d.toNat - 87 else d.toNat - 55)) 0
+
+instance : Inhabited E := ⟨.dot⟩
+
+partial def readE (toks : List String) : E × List String :=
+  match toks with
+  | [] => (.lit 'x', [])
+  | t :: rest =>
+    if t.startsWith "l" then (.lit (Char.ofNat (hexNat (t.drop 1).toString)), rest)
+    else if t.startsWith "c" then (.ctrl (Char.ofNat (hexNat (t.drop 1).toString)), rest)
+    else match t with
+      | "." => (.dot, rest)
+      | "s" => (.space false, rest) | "S" => (.space true, rest)
+      | "d" => (.digit false, rest) | "D" => (.digit true, rest)
+      | "w" => (.word false, rest) | "W" => (.word true, rest)
+      | "a" => (.anyChar, rest) | "n" => (.noChar, rest)
+      | "^" => (.bol, rest) | "$" => (.eol, rest)
+      | "b" => (.wordb false, rest) | "B" => (.wordb true, rest)
+      | "C" => let (x, r1) := readE rest; let (y, r2) := readE r1; (.cat x y, r2)
+      | "A" => let (x, r1) := readE rest; let (y, r2) := readE r1; (.alt x y, r2)
+      | "*" => let (x, r1) := readE rest; (.star x, r1)
+      | "+" => let (x, r1) := readE rest; (.plus x, r1)
+      | "?" => let (x, r1) := readE rest; (.opt x, r1)
+      | _ => (.lit 'x', rest)
+
+def rematchLine (line : String) : String :=
+  match line.splitOn "|" with
+  | [e, subj] =>
+    let (ex, _) := readE ((e.splitOn " ").filter (· ≠ ""))
+    let st := subj.trimAscii.toString
+    let s : List Char := if st == "-" then [] else (st.splitOn ",").map fun h => Char.ofNat (hexNat h)
+    -- the *converted* expression under RE2 semantics and the original under ECMA semantics agree by
+    -- `conv_preserves`; the driver evaluates the ECMA side
+    if accepts (ecmaDenote ex) s then "1" else "0"
+  | _ => "bad"
 end ReSem
